@@ -989,6 +989,30 @@ class Component(
         render_dependencies: bool = True,
         request: Optional[HttpRequest] = None,
     ) -> str:
+        render_id = gen_id()
+        try:
+            return self._render_with_id(
+                render_id, context, args, kwargs, slots, escape_slots_content, type, render_dependencies, request
+            )
+        except Exception:
+            # The render failed, so `on_component_rendered` will never be called for it.
+            # Release what this render has registered under its ID.
+            component_context_cache.pop(render_id, None)
+            unregister_provide_reference(render_id)
+            raise
+
+    def _render_with_id(
+        self,
+        render_id: str,
+        context: Optional[Union[Dict[str, Any], Context]] = None,
+        args: Optional[ArgsType] = None,
+        kwargs: Optional[KwargsType] = None,
+        slots: Optional[SlotsType] = None,
+        escape_slots_content: bool = True,
+        type: RenderType = "document",
+        render_dependencies: bool = True,
+        request: Optional[HttpRequest] = None,
+    ) -> str:
         # NOTE: We must run validation before we normalize the slots, because the normalization
         #       wraps them in functions.
         self._validate_inputs(args or (), kwargs or {}, slots or {})
@@ -1017,7 +1041,6 @@ class Component(
         # This is handled as a stack, as users can potentially call `component.render()`
         # from within component hooks. Thus, then they do so, `component.id` will be the ID
         # of the deepest-most call to `component.render()`.
-        render_id = gen_id()
         metadata = MetadataItem(
             render_id=render_id,
             input=RenderInput(
@@ -1154,7 +1177,7 @@ class Component(
                 new_output = self.on_render_after(context_snapshot, template, html)
                 html = new_output if new_output is not None else html
 
-            del component_context_cache[render_id]  # type: ignore[arg-type]
+            component_context_cache.pop(render_id, None)  # type: ignore[arg-type]
             unregister_provide_reference(render_id)  # type: ignore[arg-type]
 
             if app_settings.DEBUG_HIGHLIGHT_COMPONENTS:
